@@ -1,6 +1,8 @@
 package main
 
 import (
+	"bufio"
+	"os"
 	"bytes"
 	"crypto/sha1"
 	"encoding/binary"
@@ -98,6 +100,8 @@ func crashWorkload(seed uint64, mix string, nops int, disksz uint64, unstable bo
 		switch mix {
 		case "data": // C07: interleavings of UNSTABLE / DATA_SYNC / FILE_SYNC writes, COMMITs and metadata operations
 			stableReq = s.dataOp()
+		case "free": // C05: build a file too large to free in one transaction, then free it while other work goes on
+			stableReq = s.freeOp(i)
 		default:
 			stableReq = s.metaOp()
 		}
@@ -189,6 +193,61 @@ func (s *seqRun) metaOp() bool {
 		s.opCommit(h, 0, 0)
 	default:
 		s.opRead(s.pickFileLive(), 0, 8192)
+	}
+	return true
+}
+
+// freeOp: the scripted build-then-delete workload of C05.  Operations 0..13 build a file of
+// ~770 blocks (direct, indirect and double-indirect ranges) and two small ones; operation 14
+// removes or truncates the big file, which starts the background shrinker (the free does not fit
+// one transaction); the operations after it run concurrently with the freeing.
+func (s *seqRun) freeOp(i int) bool {
+	r := s.r
+	big := s.handleOf(s.root(), "big")
+	switch {
+	case i == 0:
+		s.opCreate("create", s.root(), "big", 0, nil)
+	case i <= 12:
+		// 64-block writes; the last ones reach the double-indirect range
+		off := uint64(i-1) * 64 * 4096
+		if i >= 10 {
+			off = uint64(8+512+(i-10)*70) * 4096
+		}
+		if big != nil {
+			s.opWrite(big, off, 64*4096, 2, s.mkData(64*4096))
+		}
+	case i == 13:
+		s.opCreate("create", s.root(), "small", 0, nil)
+	case i == 14:
+		if big == nil {
+			return true
+		}
+		if r.Chance(1, 2) {
+			s.opRemove("remove", s.root(), "big")
+		} else {
+			sz := uint64(r.Intn(3)) * 5000
+			s.opSetattr(big, &sz, timeHow{}, timeHow{})
+		}
+	default:
+		switch r.Intn(5) {
+		case 0:
+			s.opCreate("create", s.root(), s.shortName(), 0, nil)
+		case 1:
+			if h := s.handleOf(s.root(), "small"); h != nil {
+				s.opWrite(h, uint64(r.Intn(5))*4096, 9000, 2, s.mkData(9000))
+			}
+		case 2:
+			s.opCreate("mkdir", s.root(), s.shortName(), 0, nil)
+		case 3:
+			if big != nil {
+				// touching the half-freed file: the request helps finishing the shrink first
+				s.opWrite(big, uint64(r.Intn(20))*4096, 5000, 2, s.mkData(5000))
+			} else {
+				s.opCreate("create", s.root(), "big", 0, nil)
+			}
+		default:
+			s.opRemove("remove", s.root(), s.pickName(s.root()))
+		}
 	}
 	return true
 }
@@ -292,11 +351,22 @@ func cmdCrash(fs *flag.FlagSet, args []string) {
 	mix := fs.String("mix", "meta", "meta | data")
 	maxImages := fs.Int("images", 400, "crash images per workload (evenly spread when the trace offers more)")
 	disksz := fs.Uint64("disk", 20000, "disk size")
+	imgPath := fs.String("imgout", "", "file the images of the recovered logical disks go to (structure checker)")
 	onlySeed := fs.Uint64("wseed", 0, "replay: run only the workload with this seed")
 	onlyUnstable := fs.Bool("wunstable", true, "replay: the unstable option of that workload")
 	fromP := fs.Int("from", 0, "replay: only crash points >= from")
 	toP := fs.Int("to", 1<<30, "replay: only crash points <= to")
 	fs.Parse(args)
+	var imgOut func(string)
+	if *imgPath != "" {
+		f, err := os.Create(*imgPath)
+		if err != nil {
+			die("imgout: %v", err)
+		}
+		iw := bufio.NewWriterSize(f, 1<<20)
+		defer func() { iw.Flush(); f.Close() }()
+		imgOut = func(l string) { iw.WriteString(l); iw.WriteByte('\n') }
+	}
 	root := NewRng(*seed)
 	for w := 0; w < *nwl; w++ {
 		wseed := root.U64()
@@ -314,6 +384,9 @@ func cmdCrash(fs *flag.FlagSet, args []string) {
 		p0 := 0
 		if len(ops) > 0 {
 			p0 = ops[0].start
+		}
+		if *mix == "free" && len(ops) > 14 {
+			p0 = ops[14].start
 		}
 		sb.waitIdle()
 		sb.srv.VerifFsState().Txn.Flush()
@@ -419,6 +492,11 @@ func cmdCrash(fs *flag.FlagSet, args []string) {
 			rootfh := fh.MkRootFh3().Data
 			rs.objs[hx(rootfh)] = &objInfo{fh: rootfh, kind: 2}
 			rs.dirs[hx(rootfh)] = &dirInfo{names: map[string][]byte{}}
+			where := fmt.Sprintf("workload seed %d (%s mix) crash point %d (%s)", wseed, *mix, c.p, c.desc)
+			if imgOut != nil {
+				// the recovered logical disk, before anything else touches it: half-freed objects allowed
+				emitImage(rs.srv.VerifFsState(), "recovered: "+where, false, true, nil, imgOut)
+			}
 			got := rs.dumpTree()
 			if trouble != "" {
 				emit("# ORACLE C01 recovered-server-crashes workload seed %d (%s mix): after recovery at crash point %d (%s) reading the tree back: %s", wseed, *mix, c.p, c.desc, trunc(trouble))
@@ -461,6 +539,19 @@ func cmdCrash(fs *flag.FlagSet, args []string) {
 				}
 				if v := rs.writeVerf(); *mix == "data" && bytes.Equal(v, verfA) && len(v) > 0 {
 					emit("# ORACLE C07 verifier-unchanged the recovered server reports the write verifier of the crashed instance")
+				}
+			}
+			if imgOut != nil && !rs.dead {
+				// C05: a crash in the middle of freeing loses no space: once the number of every
+				// half-freed object has been reused, nothing is half-freed any more
+				for _, hf := range halfFreed(rs.srv.VerifFsState()) {
+					rs.pokeInodeAlloc(hf)
+					rs.mk("create", rs.root(), fmt.Sprintf("reuse-%d", hf))
+				}
+				rs.waitIdle()
+				rs.srv.VerifFsState().Txn.Flush()
+				if !rs.dead {
+					emitImage(rs.srv.VerifFsState(), "recovered, probed, half-freed numbers reused: "+where, true, true, nil, imgOut)
 				}
 			}
 			if !rs.dead {
